@@ -646,8 +646,22 @@ Definition orow_eqb (a b : orow) : bool :=
   String.eqb (fst a) (fst b) &&
   list_eqb (fun x y => String.eqb (fst x) (fst y) && ovalue_eqb (snd x) (snd y)) (snd a) (snd b).
 
+(* Each property compares only its own projection of the row sequence (DESIGN.md 2.3). *)
+Inductive proj := PFull | PIds | PRefs | PNames.
+
+Definition is_ref (v : ovalue) : bool := match v with ORef _ _ => true | _ => false end.
+
+Definition project_row (p : proj) (r : orow) : orow :=
+  match p with
+  | PFull => r
+  | PIds => (fst r, match snd r with x :: _ => [x] | [] => [] end)
+  | PRefs => (fst r, match snd r with x :: rest => x :: filter (fun nv => is_ref (snd nv)) rest | [] => [] end)
+  | PNames => (fst r, map (fun nv => (fst nv, ONull)) (snd r))
+  end.
+
 Inductive case :=
-| CRun (r : recipe) (k : nat) (expected : result (list orow)).
+| CRun (r : recipe) (k : nat) (expected : result (list orow))
+| CProj (p : proj) (r : recipe) (k : nat) (expected : result (list orow)).
 
 Definition run_rows (r : recipe) (k : nat) : result (list orow) :=
   do s <- run_fresh r k; Ok (rows_of s).
@@ -655,12 +669,20 @@ Definition run_rows (r : recipe) (k : nat) : result (list orow) :=
 Definition is_unsupported {A} (x : result A) : bool :=
   match x with Err Unsupported => true | _ => false end.
 
+Definition map_result {A B} (f : A -> B) (x : result A) : result B :=
+  match x with Ok a => Ok (f a) | Err e => Err e end.
+
 Definition check_case (c : case) : bool :=
   match c with
   | CRun r k expected =>
     let m := run_rows r k in
     is_unsupported m || result_eqb (list_eqb orow_eqb) m expected
+  | CProj p r k expected =>
+    let m := run_rows r k in
+    is_unsupported m ||
+    result_eqb (list_eqb orow_eqb) (map_result (map (project_row p)) m)
+               (map_result (map (project_row p)) expected)
   end.
 
 Definition case_unsupported (c : case) : bool :=
-  match c with CRun r k _ => is_unsupported (run_rows r k) end.
+  match c with CRun r k _ | CProj _ r k _ => is_unsupported (run_rows r k) end.
